@@ -200,7 +200,7 @@ ROUND10 = {
     "C15": " Round 10: two estimated parameters with the prior declared in both orders.",
     "C16": " Round 10: check_prior on values for every interface class with and without log_space_parameters.",
     "C18": " Round 10: explicitly time-dependent rates at t = 0 and later, every scheme, module functions and object.",
-    "C20": " Round 10: queues with as many or more reactions than slots.",
+    "C20": " Round 10: queues with as many or more reactions than slots; requested times up to 1e15 grid steps away (defect repaired, dcd1802).",
 }
 
 
